@@ -10,7 +10,7 @@
 (* c.chk / c.chk_at / c.gmtt recorded model answers, c.res rows of the     *)
 (* defined function.  kind "intfn": integer-function wrappers.             *)
 (***************************************************************************)
-EXTENDS JudgeCore, FuncProps
+EXTENDS JudgeCore, FuncProps, Arith
 
 BoolSeqOK(s, P(_)) == \A j \in DOMAIN s : s[j] = P(j)
 
@@ -94,5 +94,30 @@ C12IntFails(c) ==
     <<"int-wrapper-output-count", Len(c.rows) = ol>>,
     <<"int-wrapper-bit-order", Len(c.rows) # ol \/
         \A k \in 1 .. ol : rows[k] = {r \in AllRows(n) : outbit(r, k)}>>
+  >>)
+(***************************************************************************)
+(* kind "intfnwide": integer wrappers wider than a machine word (65 ..      *)
+(* 128 bits), sampled operand values.  c.samples = Seq of [x, y, out] with  *)
+(* x, y, out bit sequences in the order the wrapper was told to use         *)
+(* (c.big); the arithmetic is done on little-endian bit sequences           *)
+(* (Arith.tla), so no integer ever leaves 32 bits.                          *)
+(***************************************************************************)
+LE(bits, big) == IF big THEN Reverse(bits) ELSE bits
+WideFn(f, x, y) ==      \* little-endian bit sequences
+  CASE f = "inc" -> BAdd(x, <<TRUE>>)
+    [] f = "first" -> x
+    [] f = "add" -> BAdd(x, y)
+    [] f = "mul3" -> BAdd(x, BShift(x, 1))
+    [] f = "shr1" -> IF Len(x) <= 1 THEN <<>> ELSE SubSeq(x, 2, Len(x))
+C12IntWideFails(c) ==
+  IF c.exc # "" THEN {"int-wrapper-raised:" \o c.exc}
+  ELSE FailSet(<<
+    <<"int-wrapper-output-count", \A j \in DOMAIN c.samples : Len(c.samples[j].out) = c.outlen>>,
+    <<"int-wrapper-bit-order",
+        \A j \in DOMAIN c.samples :
+           LET sm == c.samples[j]
+               want == WideFn(c.f, LE(sm.x, c.big), LE(sm.y, c.big))
+               got == LE(sm.out, c.big)
+           IN Len(sm.out) # c.outlen \/ \A k \in 1 .. c.outlen : BBit(got, k) = BBit(want, k)>>
   >>)
 =============================================================================
